@@ -241,6 +241,20 @@ func VerifH_C01_modes() {
 	if verifKnown("C01-stdin-reread-per-port", fileMode == 2 && portsFromFile) {
 		verifCover("known-stdin")
 	}
+	if verifParam("CONFINE", 0) == 1 {
+		// C02 asks for confinement only (coverage is C01's business): every probe is one of the
+		// denoted pairs, none is addressed to an excluded host, none is made twice
+		inWant := map[string]int{}
+		for _, w := range want {
+			inWant[w]++
+		}
+		for _, g := range got {
+			verifAssert(inWant[g] > 0, "a probe is addressed outside the target specification or to an excluded address (or made twice)")
+			inWant[g]--
+		}
+		verifCover("done")
+		return
+	}
 	verifAssert(len(errs) == 0, "a well-formed target specification produced errors")
 	verifAssert(strings.Join(got, " ") == strings.Join(want, " "), "the probes generated are not exactly the (address, port) pairs the specification denotes")
 	verifCover("done")
